@@ -185,7 +185,8 @@ func (r *R) Dur() time.Duration {
 	return time.Duration(r.Int64())
 }
 
-var levelPool = []slog.Level{slog.PanicLevel, slog.ErrorLevel, slog.WarnLevel, slog.InfoLevel, slog.DebugLevel, slog.TraceLevel, slog.OffLevel, slog.AlwaysLevel, slog.OKLevel, slog.FailLevel}
+var levelPool = []slog.Level{slog.PanicLevel, slog.ErrorLevel, slog.WarnLevel, slog.InfoLevel, slog.DebugLevel, slog.TraceLevel, slog.OffLevel, slog.AlwaysLevel, slog.OKLevel, slog.FailLevel,
+	slog.Level(17), slog.MaxLevel, slog.Level(-3)} // and values nobody registered
 
 // Scalar builds a value of the given scalar kind.
 func (r *R) Scalar(kind string, o Options) V {
